@@ -90,14 +90,22 @@ Definition legacy_multipart_upload_unrepaired (create_ok : bool) (parts_ok : lis
 
 (** S3Transfer.upload_file: size >= threshold -> multipart with
     ceil(size/chunk) parts, else one put_object. *)
+Definition upload_oks (size chunk : Z) (parts_ok : list bool) : list bool :=
+  let n := Z.to_nat (num_parts size chunk) in firstn n (parts_ok ++ repeat true n).
+
 Definition legacy_upload (size thr chunk : Z) (create_ok : bool) (parts_ok : list bool)
     (started : nat) (order : list nat) (complete_ok abort_ok put_ok : bool)
   : list uev * uout :=
   if is_multipart size thr then
-    let n := Z.to_nat (num_parts size chunk) in
-    let oks := firstn n (parts_ok ++ repeat true n) in
-    legacy_multipart_upload create_ok oks started order complete_ok abort_ok
+    legacy_multipart_upload create_ok (upload_oks size chunk parts_ok) started order
+                            complete_ok abort_ok
   else ([UPut put_ok], if put_ok then USuccess else UPutErr).
+
+(** the same with the parts completing in part-number order *)
+Definition legacy_upload_inorder (size thr chunk : Z) (create_ok : bool) (parts_ok : list bool)
+    (started : nat) (complete_ok abort_ok put_ok : bool) : list uev * uout :=
+  legacy_upload size thr chunk create_ok parts_ok started
+    (seq 0 (parts_run (upload_oks size chunk parts_ok) started)) complete_ok abort_ok put_ok.
 
 (** The (start, length) each part reads from the file (ReadFileChunk). *)
 Definition upload_part_extent (size chunk pn : Z) : Z * Z :=
@@ -334,12 +342,16 @@ Fixpoint io_writes (ws : list (Z * bytes)) (j : nat) (io_fail : option nat) : li
 (** MultipartDownloader.download_file.  Assumes the IO queue never fills up
     after the IO thread died (capacity >= queued items): otherwise the real
     code blocks for ever, see the report. *)
+Definition range_runs (obj : bytes) (chunk : Z) (max_attempts : nat)
+    (scripts : list (list attempt)) : list ((list dev * list (Z * bytes)) * rres) :=
+  let rs := download_ranges (Z.of_nat (length obj)) chunk in
+  map (fun ir => range_loop obj (snd ir) max_attempts (nth (fst ir) scripts []))
+      (combine (seq 0 (length rs)) rs).
+
 Definition ranged_get (obj : bytes) (chunk : Z) (max_attempts : nat)
     (scripts : list (list attempt)) (started : nat) (sched : list nat)
     (io_open_ok : bool) (io_fail : option nat) : list dev * dout :=
-  let rs := download_ranges (Z.of_nat (length obj)) chunk in
-  let runs := map (fun ir => range_loop obj (snd ir) max_attempts (nth (fst ir) scripts []))
-                  (combine (seq 0 (length rs)) rs) in
+  let runs := range_runs obj chunk max_attempts scripts in
   let m := ranges_run (map snd runs) started in
   let runs' := firstn m runs in
   let gets := concat (map (fun x => fst (fst x)) runs') in
@@ -398,5 +410,9 @@ Definition legacy_download_unrepaired (thr chunk : Z) (max_attempts : nat) (obj 
                 else (EHead true :: es ++ [ERename false], DRenameErr)
   | e => (EHead true :: es ++ [ERemove], e)
   end.
+
+(** destination states after each prefix of the event sequence *)
+Fixpoint dest_trace (s : fs) (evs : list dev) : list (option bytes) :=
+  dest s :: match evs with [] => [] | e :: r => dest_trace (apply_ev s e) r end.
 
 Definition final_fs (old : option bytes) (evs : list dev) : fs := run_from (init_fs old) evs.
